@@ -1,6 +1,9 @@
 import PallasVerif.Proofs.NetMsg
 import PallasVerif.Proofs.NetFuel
 import PallasVerif.Proofs.NetProgress
+import PallasVerif.Proofs.DecTotal
+import PallasVerif.Proofs.ByronTotal
+import PallasVerif.Proofs.PlutusDataDecSound
 import PallasVerif.Gen.PanicSitesC09
 /-!
 # C09 — Ledger and network decoders never panic on untrusted bytes  (level: `other`)
@@ -22,6 +25,10 @@ decoders and is decided by search (streams `msgfuzz`, `artfuzz`) plus an audited
   indexing / slicing / copy_from_slice / arithmetic); `panic_sites_all_audited` holds only while every
   site has an entry in the audited allow-list `lib/panic_audit_C09.json` — a new site breaks the
   check until it is audited.
+* **further modelled decoders** (stream `decfuzz`): the `pallas-codec` wrappers (C03's model),
+  `PlutusData` (C07's, exact: strict parse + tree) and Byron / Shelley addresses (C19's / C18's) are
+  compared with the real decoders on mutated bytes; `wrappers_never_diverge`,
+  `plutusdata_decoder_is_total_and_exact`, `byron_decoders_never_diverge` state their totality.
 * **ledger half, not modelled**: blocks, transactions, headers, outputs, addresses and the
   node-to-client payload decoders are exercised by `artfuzz` (mutations of every artefact of
   `test_data`), where the Lean side only states the demanded outcome class.
@@ -120,6 +127,74 @@ theorem message_element_loops_never_out_of_fuel (f1 f2 : Nat) (bs : Bytes) (h1 :
    decBreak_fuel_irrelevant _ progress_dmqMsg _ f1 f2 bs rfl h1 h2,
    decBreak_fuel_irrelevant _ progress_point _ f1 f2 bs rfl h1 h2,
    decBreak_fuel_irrelevant _ (progress_pair (progress_uMax _) progress_u64.noGrow) _ f1 f2 bs rfl h1 h2⟩
+
+/-! ## further hand-written decoders inside the model (stream `decfuzz`)
+
+The models of C03 (`pallas-codec` wrappers over the minicbor primitives), C07 (`PlutusData`) and
+C19 / C18 (Byron and Shelley addresses) are run by C09 on random bytes and structure-aware mutants and
+their outcome (value / error class) is compared with the real decoders. What is proved about them
+here is that they are *total with the implementation's outcome classes only*: the single
+model-only outcome, `diverge` (a fuelled loop ran dry), is unreachable on every input. -/
+
+section
+open PallasVerif.Minicbor PallasVerif.Wrappers
+
+/-- **wrappers, generic**: for any element decoder that consumes input when it succeeds and never
+    diverges, the array / map / set / wrap / nullable / keep-raw wrappers around it never diverge —
+    hence every nesting of them -/
+theorem wrappers_never_diverge {α β : Type} (a : Codec α) (b : Codec β)
+    (ca : Consumes a.dec) (cb : Consumes b.dec) (na : NoDiverge a.dec) (nb : NoDiverge b.dec) :
+    NoDiverge (vec a.dec) ∧ NoDiverge (MaybeIndef.dec a) ∧ NoDiverge (KVP.dec a b) ∧ NoDiverge (Set.dec a) ∧
+    NoDiverge (CborWrap.dec a) ∧ NoDiverge (ZeroOrOne.dec a) ∧ NoDiverge (OPP.dec a) ∧ NoDiverge (Nullable.dec a) ∧
+    NoDiverge (KeepRaw.dec a) ∧ Consumes (MaybeIndef.dec a) ∧ Consumes (KVP.dec a b) :=
+  ⟨vec_nd a.dec ca na, maybeIndef_nd a ca na, kvp_nd a b ca cb.suffix na nb, set_nd a ca na, cborWrap_nd a na,
+   zeroOrOne_nd a na, opp_nd a na, nullable_nd a na, keepRaw_nd a na, maybeIndef_consumes a ca.suffix, kvp_consumes a b ca cb.suffix⟩
+
+/-- the leaves: `AnyUInt`, `PositiveCoin`, `AnyCbor` (= `skip`), integers, byte strings -/
+theorem wrapper_leaves_never_diverge :
+    NoDiverge AnyUInt.dec ∧ Consumes AnyUInt.dec ∧ NoDiverge PositiveCoin.dec ∧ NoDiverge AnyCbor.dec ∧ Consumes AnyCbor.dec ∧
+    NoDiverge Minicbor.u64 ∧ NoDiverge Minicbor.bytes ∧ NoDiverge Minicbor.skip :=
+  ⟨anyUInt_nd, anyUInt_consumes, positiveCoin_nd, anyCbor_nd, anycbor_consumes, uintN_nd 64, bytes_nd, skip_nd⟩
+
+/-- an instance at a nesting the stream exercises: `KeepRaw<KeyValuePairs<AnyUInt, MaybeIndefArray<Nullable<AnyUInt>>>>` -/
+example : NoDiverge (KeepRaw.dec (cKVP cAnyUInt (cMaybeIndef (cNullable cAnyUInt)))) := by
+  have hN : NoDiverge (Nullable.dec cAnyUInt) := nullable_nd cAnyUInt anyUInt_nd
+  have hNc : Consumes (Nullable.dec cAnyUInt) := by
+    intro cur a rest h
+    unfold Nullable.dec at h
+    split at h
+    · cases h
+    · split at h
+      · obtain ⟨x, e, _⟩ := Res.map_eq_ok h; exact null_consumes _ _ _ e
+      · split at h
+        · obtain ⟨x, e, _⟩ := Res.map_eq_ok h; exact undefined_consumes _ _ _ e
+        · obtain ⟨x, e, _⟩ := Res.map_eq_ok h; exact anyUInt_consumes _ _ _ e
+  exact keepRaw_nd _ (kvp_nd cAnyUInt (cMaybeIndef (cNullable cAnyUInt)) anyUInt_consumes
+    (maybeIndef_consumes (cNullable cAnyUInt) hNc.suffix).suffix anyUInt_nd (maybeIndef_nd (cNullable cAnyUInt) hNc hN))
+end
+
+/-- **PlutusData**: the byte-level decoder model has no fuel artefact at all — it accepts exactly
+    when the strict parser finds a first item that the tree decoder maps to a value (C07's
+    `decodeBytes_iff`), so its outcome on any bytes is determined by `parseItem` and `ofItem` -/
+theorem plutusdata_decoder_is_total_and_exact (bs : Bytes) (d : PlutusData.PData) (r : Bytes) :
+    PlutusData.Dec.decodeBytes bs = some (d, r) ↔ ∃ i : Item, parseItem bs = some (i, r) ∧ PlutusData.ofItem i = some d :=
+  PlutusData.Dec.decodeBytes_iff bs d r
+
+/-- **Byron addresses**: neither `ByronAddress`'s nor `AddressPayload`'s derived field loop ever runs
+    out of fuel, so `from_bytes` / `decode` as modelled report implementation error classes only -/
+theorem byron_decoders_never_diverge :
+    Minicbor.NoDiverge Byron.ByronAddress.dec ∧ Minicbor.NoDiverge Byron.AddressPayload.dec ∧
+    (∀ bs, Byron.fromBytes bs ≠ .error (.cbor .diverge)) := by
+  refine ⟨Byron.byronAddress_nd, Byron.addressPayload_nd, fun bs h => ?_⟩
+  unfold Byron.fromBytes at h
+  split at h
+  · rename_i e he
+    simp only [Except.error.injEq, Byron.AddrErr.cbor.injEq] at h
+    subst h
+    exact Byron.byronAddress_nd _ he
+  · split at h
+    · simp at h
+    · cases h
 
 /-! ## non-vacuity -/
 
